@@ -27,7 +27,7 @@ RULE = ('process programs (declared nested inputs with defaults, nested and dyna
 ASSUMPTIONS = ['bundles compared structurally: exceptions by type and args, mappings order-insensitively, the traceback text of an excepted state ignored',
                'a WorkChain waiting on futures / children cannot be saved and is not a save point', 'listeners are not attached (they would be persisted)']
 REQUIRED = ['roundtrips', 'medium/copy', 'medium/pickle', 'medium/yaml', 'loader/default', 'loader/custom', 'points/created', 'points/running', 'points/waiting',
-            'points/finished', 'points/excepted', 'points/killed', 'points/paused', 'points/q-killed', 'points/q-excepted', 'points/q-finished', 'points/q-waiting', 'kinds/process', 'kinds/outline', 'stepper_states', 'accessors_compared']
+            'points/finished', 'points/excepted', 'points/killed', 'points/paused', 'points/q-killed', 'points/q-excepted', 'points/q-finished', 'points/q-waiting', 'kinds/process', 'kinds/outline', 'stepper_states', 'accessors_compared', 'codec_processes']
 BOUNDS = {'quick': '10 programs x 4 plans + 40 outlines, all save points, 6 round trips each', 'thorough': '+60 random programs, 400 outlines'}
 
 
@@ -49,9 +49,20 @@ class InProg(plumpy.ContextMixin, programs.ProgBase):
         super()._enter(i, args, kwargs)
         self.ctx.setdefault('seen', []).append(i)
         self.ctx.last = {'step': i, 'args': _jsonable(args)}
+        deep = self.inputs.get('ns', {}).get('deep', {}).get('c') if self.inputs is not None else None
+        if isinstance(deep, dict):
+            # an input value given by the caller is changed in place: every save must carry the value of its own moment
+            deep['m'].append('step-%d' % i)
 
 
 generated.register(InProg, 'InProg')
+
+
+class InProgCodec(programs.CodecMixin, InProg):
+    """The same with inputs and outputs stored in an encoded form."""
+
+
+generated.register(InProgCodec, 'InProgCodec')
 S = programs.step
 
 
@@ -87,7 +98,7 @@ def gen_cases(tier, seed):
                  [{'at': 1, 'act': ['pause', 'p1']}, {'at': 'q', 'act': ['fail', 'fp']}]]
         for plan in plist:
             n += 1
-            yield {'kind': 'process', 'name': name, 'program': prog, 'plan': plan, 'inputs': INPUTS[n % 3], 'pid': PIDS[n % 4]}
+            yield {'kind': 'process', 'name': name, 'program': prog, 'plan': plan, 'inputs': INPUTS[n % 3], 'pid': PIDS[n % 4], 'codec': n % 5 in (1, 3)}
     for i in range(40 if tier == 'quick' else 400):
         ast = outlines.random_ast(rng, rng.randint(1, 3), max_body=3)
         preds = [rng.random() < 0.6 for _ in range(rng.randint(0, 8))]
@@ -184,7 +195,7 @@ class SavePoints:
 
 class SaveRun(lifecycle.Run):
     def _make_class(self):
-        return programs.program_class(self.case['program'], InProg)
+        return programs.program_class(self.case['program'], InProgCodec if self.case.get('codec') else InProg)
 
     def _construct(self, cls, loop):
         self.sp = SavePoints(loop, 'process %s' % self.case['name'])
@@ -244,6 +255,7 @@ def run_case(case):
                 incon = 'budget'
     obs = sp.obs
     obs['kinds'] = {case['kind']: 1}
+    obs['codec_processes'] = int(bool(case.get('codec')))
     res = {'viol': judges._dedupe(sp.viol), 'obs': obs, 'inconclusive': incon, 'key': case, 'nontrivial': obs['roundtrips'] > 6}
     res['sample'] = {'kind': case['kind'], 'what': case.get('name') or 'outline', 'plan': case.get('plan'), 'pid': case['pid'], 'save_points': obs['points'],
                      'roundtrips': obs['roundtrips']}
